@@ -173,6 +173,35 @@ func writeTemplateFacts(repo, outPath string) {
 		check := strings.Contains(unmarshalBody, "csprotoCheckRequiredFields(); err != nil")
 		req = append(req, fmt.Sprintf("(%q, %s, %s, %s)", f, leanBool(mg), leanBool(ug), leanBool(check)))
 	}
+	// the order in which extensions are sized / written is the template's: `range getExtensions` over the
+	// per-extension snippet in both methods, and nothing in any template enumerates what the RUNTIME holds
+	// (RangeExtensions / ExtensionDescs walk a Go map: an order that changes from call to call)
+	var extLoops, decSetup []string
+	runtimeOrdered := 0
+	for _, f := range []string{"fieldsnippets.tmpl", "singlefile.go.tmpl", "permessage.go.tmpl"} {
+		src := read(f)
+		runtimeOrdered += strings.Count(src, "RangeExtensions") + strings.Count(src, "ExtensionDescs")
+	}
+	reSizeLoop := regexp.MustCompile(`\{\{-?\s*range getExtensions [^}]*\}\}\s*\{\{-?\s*template "SizeOfExtension" `)
+	reMarshalLoop := regexp.MustCompile(`\{\{-?\s*range getExtensions [^}]*\}\}\s*\{\{-?\s*template "MarshalExtension" `)
+	reUnsafeSetMode := regexp.MustCompile(`\{\{-?\s*if \$useUnsafeDecoder\s*-?\}\}\s*(//[^\n]*\n\s*)*dec\.SetMode\(csproto\.DecoderModeFast\)`)
+	for _, f := range []string{"singlefile.go.tmpl", "permessage.go.tmpl"} {
+		src := read(f)
+		sizeIdx, marshalIdx := strings.Index(src, ") Size() int {"), strings.Index(src, ") Marshal() ([]byte, error) {")
+		marshalToIdx, unmarshalIdx := strings.Index(src, "MarshalTo(dest []byte) error {"), strings.Index(src, "Unmarshal(p []byte) error {")
+		if sizeIdx < 0 || marshalIdx < sizeIdx || marshalToIdx < marshalIdx || unmarshalIdx < marshalToIdx {
+			continue // (reported below)
+		}
+		extLoops = append(extLoops, fmt.Sprintf("(%q, %s, %s)", f, leanBool(reSizeLoop.MatchString(src[sizeIdx:marshalIdx])), leanBool(reMarshalLoop.MatchString(src[marshalToIdx:unmarshalIdx]))))
+		ub := src[unmarshalIdx:]
+		newDec := strings.Count(ub, "dec := csproto.NewDecoder(p)") == 1 && strings.Count(ub, "NewDecoder(") == 1
+		onlyOpt := strings.Count(src, "SetMode(") == len(reUnsafeSetMode.FindAllString(src, -1))
+		decSetup = append(decSetup, fmt.Sprintf("(%q, %s, %s)", f, leanBool(newDec), leanBool(onlyOpt)))
+	}
+	fmt.Fprintf(&b, "/-- (template, Size() sizes the extensions by `range getExtensions` over `SizeOfExtension`, MarshalTo writes them by `range getExtensions` over `MarshalExtension`): declaration order, fixed at generation time -/\ndef extensionLoops : List (String × Bool × Bool) := [%s]\n\n", strings.Join(extLoops, ", "))
+	fmt.Fprintf(&b, "/-- mentions, in the three templates, of the runtime calls that enumerate populated extensions in Go-map order (RangeExtensions, ExtensionDescs) -/\ndef runtimeOrderedIteration : Nat := %d\n\n", runtimeOrdered)
+	fmt.Fprintf(&b, "/-- (template, Unmarshal gets its decoder from exactly one `csproto.NewDecoder(p)`, every `SetMode(` of the template is `dec.SetMode(csproto.DecoderModeFast)` under `{{if $useUnsafeDecoder}}`) -/\ndef decoderSetup : List (String × Bool × Bool) := [%s]\n\n", strings.Join(decSetup, ", "))
+	fmt.Printf("fact F17 extension loops %v, runtime-ordered iteration mentions = %d\nfact F12 decoder set-up %v\n", extLoops, runtimeOrdered, decSetup)
 	fmt.Fprintf(&b, "/-- mentions of the runtime's size-cache fields / sync/atomic in the two file templates -/\ndef sizeCacheMentions : Nat := %d\n\n", mentions)
 	fmt.Fprintf(&b, "/-- (template, Size counts the unknown fields, MarshalTo writes them, Unmarshal keeps them) -/\ndef unknownHandling : List (String × Bool × Bool × Bool) := [%s]\n\n", strings.Join(unk, ", "))
 	fmt.Fprintf(&b, "/-- (template, the `siz == 0` shortcut of Marshal is only taken without required fields, likewise the `len(p) == 0` shortcut of Unmarshal, Unmarshal runs the required-field check) -/\ndef requiredGuards : List (String × Bool × Bool × Bool) := [%s]\n\n", strings.Join(req, ", "))
